@@ -221,7 +221,7 @@ def _tensor_as_memoryview_via_untyped_storage(tensor: torch.Tensor) -> memoryvie
             "with contiguous tensors"
         )
     untyped_storage = contiguous_view_as_untyped_storage(tensor)
-    tensor = torch.empty((0))
+    tensor = torch.empty((0), dtype=torch.uint8)
     tensor.set_(untyped_storage)
     return memoryview(tensor.numpy()).cast("b")
 
